@@ -4,6 +4,7 @@ import PPProofs.Lemmas.DiagramRoot0
 import PPProofs.Lemmas.DiagramFilled
 import PPProofs.Lemmas.DiagramContent
 import PPProofs.Lemmas.DiagramBounds
+import PPProofs.Lemmas.DiagramResolve
 import PPProofs.Props.C20
 /-!
 # C20 — the clauses links_resolve / root_first / no_empty_placeholder under decidable hypotheses
@@ -21,11 +22,14 @@ registered shape (each hypothesis is shown to fail on the corresponding witness)
   `no_empty_placeholder_output_partial`,
   `no_empty_placeholder_tree_partial`  hypothesis `drawsAll g o` (every element draws something): all partials
                                        of the final heap and all diagram contents are filled with references,
-                                       no returned tree contains `""`; NOT proved: `resolve` never yields
-                                       `rawNone` (its fuel `|heap|+1` suffices, no dangling reference)
+                                       no returned tree contains `""`; NOT proved: that the fuel `|heap|+1` of
+                                       `resolve` suffices (acyclicity of the heap), so `rawNone` is not excluded
 * `no_dangling_reference`              FULL strength (no hypothesis): every reference in the final heap and every
                                        kept diagram content points into the heap
-Invariants (Lemmas/DiagramLinks, DiagramRoot, DiagramRoot0, DiagramFilled, DiagramContent): `conv_step`
+* `no_empty_placeholder_of_acyclic_partial`  the tree-level clause from the one missing fact (decidable check
+                                       `heapAcyclicB` of the final state)
+Invariants (Lemmas/DiagramLinks, DiagramRoot, DiagramRoot0, DiagramFilled, DiagramContent, DiagramBounds,
+DiagramResolve): `conv_B` (no reference leaves the heap), `conv_step`
 (every NonTerminal carries the custom name of an extracted or pending element; a returning call leaves
 no new pending element), `conv_RInv` / `conv_RInv0_on` (the root keeps index 1, all others ≥ 2, diagram
 keys distinct), `conv_HS` (a returning call returns an item, never loses a reference, leaves its partials
@@ -455,5 +459,65 @@ theorem no_dangling_reference (g : Grammar) (o : Opts) (fuel root : Nat) (s : St
 example : ∃ s, convertRoot gNamed opts0 6 0 = some s ∧ 5 ≤ s.heap.length := by
   refine ⟨_, rfl, ?_⟩
   decide +kernel
+
+/-! ## what is missing for the tree-level clause, isolated -/
+
+/-- the final heap passes the acyclicity check with the rank function `rank`: every stored reference
+    decreases `rank`, and `rank` is bounded by the heap size (so the fuel of `resolve` suffices) -/
+def heapAcyclicB (s : St) (rank : Nat → Nat) : Bool :=
+  rankedHeapB s.heap rank && (List.range s.heap.length).all (fun r => decide (rank r ≤ s.heap.length))
+
+/-- **no_empty_placeholder_of_acyclic_partial**: the tree-level clause `noEmptyPlaceholder ds = true`,
+    for ALL `drawsAll` grammars, options, roots in the table and returning fuels, from the single
+    fact that is not proved in general - the final heap of partials is acyclic, given as a decidable
+    check `heapAcyclicB s rank` of the final converter state (e.g. `rank := heightOf s.heap |heap|`).
+    Everything else (all slots and contents are references: `conv_HS`, `conv_KD`; no reference
+    dangles: `no_dangling_reference`) is proved. -/
+theorem no_empty_placeholder_of_acyclic_partial (g : Grammar) (o : Opts) (fuel root : Nat) (ds : List Named)
+    (hd : drawsAll g o = true) (hroot : root < g.length) (h : toRailroad g o fuel root = some ds)
+    (rank : Nat → Nat)
+    (hac : ∀ s, convertRoot g o fuel root = some s → heapAcyclicB s rank = true) :
+    noEmptyPlaceholder ds = true := by
+  unfold toRailroad at h
+  split at h
+  · exact absurd h (by simp)
+  · rename_i s hs
+    simp only [Option.some.injEq] at h
+    subst h
+    obtain ⟨hA, hD⟩ := convertRoot_AD g o fuel root s hd hroot hs
+    have hB := convertRoot_B g o fuel root s hs
+    have hac' := hac s hs
+    unfold heapAcyclicB at hac'
+    simp only [Bool.and_eq_true, List.all_eq_true, List.mem_range, decide_eq_true_eq] at hac'
+    obtain ⟨hrk, hbound⟩ := hac'
+    have hperm := sortByIndex_perm ((selected s).map (entryTree s))
+    unfold noEmptyPlaceholder
+    rw [List.all_eq_true]
+    intro d hd'
+    obtain ⟨e, he, rfl⟩ := List.mem_map.mp (hperm.mem_iff.mp hd')
+    have hmem : e ∈ s.diagrams.map (·.2) := by
+      unfold selected at he
+      simp only at he
+      split at he
+      · exact dedupe_sub _ _ _ he
+      · exact he
+    obtain ⟨p, hp, rfl⟩ := List.mem_map.mp hmem
+    have hc1 := hD p hp
+    have hc2 := hB.dg p hp
+    cases hcont : p.2.content with
+    | none => rw [hcont] at hc1; simp [Slot.isRef] at hc1
+    | empty => rw [hcont] at hc1; simp [Slot.isRef] at hc1
+    | ref c =>
+      rw [hcont] at hc2
+      have hlt : c < s.heap.length := by simpa [Slot.inB] using hc2
+      have := resolve_noRaw s.heap hA hB.hp rank (rankedHeap_of_B hrk) (s.heap.length + 1) c hlt
+        (by have := hbound c hlt; omega)
+      simp [entryTree, hcont, Tree.hasRaw, Tree.hasRawL, this]
+
+/-- non-vacuity: the final heap of the named recursive grammar passes the check with the computed
+    height as rank -/
+example : ∃ s, convertRoot gNamed opts0 6 0 = some s ∧ drawsAll gNamed opts0 = true ∧
+    heapAcyclicB s (heightOf s.heap s.heap.length) = true := by
+  refine ⟨_, rfl, ?_, ?_⟩ <;> decide +kernel
 
 end PP.Diagram
